@@ -17,6 +17,20 @@ A job that stops with the sender still waiting for an acknowledgement is an orac
 (`job stalled: lines accepted so far ...`), found structurally in step mode and by a bounded wait
 (STALL_WAIT) in the free-running sub-run (`inwrite` profile).
 
+Two further dimensions of a case:
+
+  conn   how the serial connection was opened (`sim.open_connection`): port name, baud rate,
+         dtr None / False / True, via `connect(...)`, the constructor, two `connect` calls, or a
+         reconnect.  None of it changes what the property demands, so these cases go to the model as
+         they are (it has no notion of a connection: the same job must give the same bytes).
+  slow   `[[transmission index, k, where]]`: the device stays silent for k read time-outs of the port
+         before it reads that transmission (`exec`, schedule action `W`) or before the last line of
+         its reply (`ack`, action `w`) - a command that simply takes long (homing, heating, dwell).
+         The fake port honours its read time-out (readline() returns b"" after `SLOW_POLL` s, the
+         scaled image of the 0.25 s the Device asks for), so whatever the read thread does about
+         time-outs runs.  For the model waiting is a stutter step: `W`/`w` are dropped from the
+         schedule it replays.
+
 The recorded (job, fault set, e0, schedule) is replayed on the Lean model; compared: the exact
 sequence of lines written to the port, the firmware's accepted log and reply stream, the sender's
 final state and the SplitTriple monitor.  A free-running sub-run (real `time.sleep`, a firmware
@@ -116,7 +130,11 @@ def early_k(case_early, idx: int) -> int:
     return int(case_early[idx % len(case_early)])
 
 
-def stream_job(ses, job, e0, faults, policy, rnd, fixed=None, early=None) -> dict:
+SLOW_POLL = 0.01  # s: read time-out of the fake port in cases with a slow reply (Device asks pyserial for 0.25 s)
+WAITS = {"W": "exec", "w": "ack"}
+
+
+def stream_job(ses, job, e0, faults, policy, rnd, fixed=None, early=None, slow=None) -> dict:
     """`startprint(job)` on the session's printcore and drive it to quiescence (or out of budget).
 
     `early` (schedule dimension "fast device / slow host"): for the transmissions it selects, the
@@ -148,6 +166,10 @@ def stream_job(ses, job, e0, faults, policy, rnd, fixed=None, early=None) -> dic
             raise sim.StepTimeout("previous job's print thread did not hand over to the send thread")
         time.sleep(0.001)
     pending: list[str] = []
+    ptag: list = []  # parallel to `pending`: the transmission index whose reply ends with that line, else None
+    slowmap = {int(i): (int(k), str(w)) for i, k, w in (slow or [])}
+    waited: set[int] = set()
+    n_wait = 0
     rep: list[str] = []
     consumed, dirty, after_resend, split, budget = 0, False, False, False, True
     trace: list[str] = []
@@ -162,13 +184,15 @@ def stream_job(ses, job, e0, faults, policy, rnd, fixed=None, early=None) -> dic
         nonlocal consumed, after_resend, split, s_open, n_early, n_capped
         try:
             idx = len(ser.tx) - base - 1
+            if threading.get_ident() == ser.reader:
+                return  # written by the thread that reads the port: it cannot be answered inside its own write()
             if s_open:
                 s_open = False
             else:  # a further _sendnext pass of the same wake-up: the model needs its own S for it
                 if after_resend:
                     split = True
                 trace.append("S")
-            k = early_k(early, idx)
+            k = 0 if idx in slowmap else early_k(early, idx)
             if line in seen_new:
                 seen_frames.add(line)  # written before in this job: a retransmission (resend branch)
             elif not line.startswith("N-1 "):
@@ -188,8 +212,19 @@ def stream_job(ses, job, e0, faults, policy, rnd, fixed=None, early=None) -> dic
                     ser.feed(x)
                     after_resend = x.startswith("Resend")
                 pending.extend(out[k:])
+                ptag.extend(tags(out, idx)[k:])
         except BaseException as e:  # never let harness trouble look like a dying print thread
             cb_error.append(e)
+
+    def tags(out, idx):
+        return [None] * (len(out) - 1) + [idx]
+
+    def wait_due(a):
+        """the transmission whose slow reply has to be waited for before action `a` (F / L), or None"""
+        idx = consumed if a == "F" else (ptag[0] if ptag else None)
+        if idx in slowmap and idx not in waited and slowmap[idx][1] == ("exec" if a == "F" else "ack"):
+            return idx
+        return None
 
     ser.on_write = on_write if early else None
     try:
@@ -213,7 +248,12 @@ def stream_job(ses, job, e0, faults, policy, rnd, fixed=None, early=None) -> dic
                     budget = bool(acts)
                     break
                 a = fixed[pos]
-                if a != "S" and a not in acts:
+                if a in WAITS:
+                    tgt = "F" if a == "W" else "L"
+                    if tgt not in acts or wait_due(tgt) is None:
+                        res["error"] = f"schedule action {a} at {pos} not enabled"
+                        break
+                elif a != "S" and a not in acts:
                     res["error"] = f"schedule action {a} at {pos} not enabled"
                     break
             elif not acts:
@@ -221,14 +261,23 @@ def stream_job(ses, job, e0, faults, policy, rnd, fixed=None, early=None) -> dic
                 break
             else:
                 a = choose(policy, acts, rnd)
+                if a in "FL" and wait_due(a) is not None:
+                    a = "W" if a == "F" else "w"  # the device is not that fast: first the silence, then choose again
             trace.append(a)
-            if a == "F":
+            if a in WAITS:
+                idx = wait_due("F" if a == "W" else "L")
+                waited.add(idx)
+                n_wait += 1
+                ser.wait_timeouts(slowmap[idx][0])
+            elif a == "F":
                 out = fw.rx(ser.tx[base + consumed])
+                ptag += tags(out, consumed)
                 consumed += 1
                 pending += out
                 rep += [sim.reply_token(x) for x in out]
             elif a == "L":
                 line = pending.pop(0)
+                ptag.pop(0)
                 ser.feed(line)
                 dirty = True
                 after_resend = line.startswith("Resend")
@@ -259,6 +308,7 @@ def stream_job(ses, job, e0, faults, policy, rnd, fixed=None, early=None) -> dic
         finished=(not pc.printing) and not ses.print_alive(),
         n_early=n_early,
         n_capped=n_capped,
+        n_wait=n_wait,
         # nothing on the wire, no reply outstanding, the print thread parked in its poll - and the job not over
         stalled=(not budget) and bool(pc.printing) and ses.print_alive() and not res.get("error"),
         state=dict(
@@ -279,7 +329,8 @@ def impl_run(case: dict) -> dict:
     errs: list[str] = []
     res: dict = {"error": None}
     try:
-        with sim.printcore_session() as ses:
+        with sim.printcore_session(conn=case.get("conn"),
+                                   read_timeout=SLOW_POLL if case.get("slow") else None) as ses:
             ses.core.errorcb = lambda e: errs.append(str(e))
             ses.gate.arm()
             if case.get("warmup"):
@@ -289,7 +340,7 @@ def impl_run(case: dict) -> dict:
                     res["errors"] = []
                     return res
             res = stream_job(ses, case["job"], case["e0"], case["faults"], case["policy"], rnd, case.get("sched"),
-                             case.get("early"))
+                             case.get("early"), case.get("slow"))
     except sim.StepTimeout as e:
         res["error"] = f"hang: {e}"
     res["errors"] = [e for e in errs if "died" in e or "Can't" in e or "rubbish" in e]
@@ -313,7 +364,8 @@ def model_line(case: dict, trace: str) -> str:
     if case["job"] and job == "":
         job = "-"  # a single blank line: dropped by GCode.prepare anyway
     faults = ",".join(str(i) for i in sorted(case["faults"])) or "-"
-    return f"e0={case['e0']} faults={faults} job={job} sched={trace or '-'}"
+    sched = "".join(a for a in trace if a not in WAITS)  # waiting is a stutter step of the model
+    return f"e0={case['e0']} faults={faults} job={job} sched={sched or '-'}"
 
 
 # ------------------------------------------------------------------ oracle (independent of the Lean model)
@@ -329,12 +381,19 @@ def oracle(case: dict, r: dict) -> list[tuple[str, str, dict]]:
     tx = r["tx"]
     if not r.get("bytes_ok", True):
         out.append(("frame", "the bytes written are not exactly the transmitted lines, each terminated by one \\n", {}))
-    # (1) every transmission is a well-formed frame; numbering consecutive from 0 after `M110 N-1`
+    # (1) every transmission is a well-formed frame; numbering consecutive from 0 after `M110 N-1`.
+    #     What the sender transmits while it streams a job is the reset, the job's lines and retransmissions of
+    #     them - "every non-comment line exactly once" leaves no room for anything else on the link.
     nxt, seen = 0, {}
     for i, t in enumerate(tx):
         m = sim.FRAME_RE.match(t)
         if not m:
-            out.append(("frame", f"transmission {i} {t!r} is not N<k> <cmd>*<checksum>", {}))
+            bare = t.strip()
+            if bare == RESET or (nxt < len(want) and bare == want[nxt]) or bare in want[:nxt]:
+                out.append(("frame", f"transmission {i} {t!r} is not N<k> <cmd>*<checksum>", {}))
+            else:
+                out.append(("unsolicited", f"transmission {i} {t!r} is neither a line of the job, nor a resend, nor the "
+                                           f"M110 reset (and not N<k> <cmd>*<checksum>)", {}))
             break
         n, cmd, cs = int(m.group(1)), m.group(2), int(m.group(3))
         pre = t[: t.rindex("*")]
@@ -370,7 +429,7 @@ def oracle(case: dict, r: dict) -> list[tuple[str, str, dict]]:
             out.append(("frame", f"transmission {i} numbered {n}, expected a number <= {nxt}", {}))
             break
     # (2) a resend request makes transmission restart from the requested line
-    if not any(tag == "frame" for tag, _, _ in out):
+    if not any(tag in ("frame", "unsolicited") for tag, _, _ in out):
         sent_new, pending_rs, last = 0, None, None
         for kind, line in r["events"]:
             if kind == "r":
@@ -391,7 +450,8 @@ def oracle(case: dict, r: dict) -> list[tuple[str, str, dict]]:
                         break
                     pending_rs = None
                 elif last is not None and n != last + 1:
-                    out.append(("resend", f"line {n} transmitted right after line {last} without a resend request", {}))
+                    out.append(("resend", f"line {n} transmitted right after line {last} without a resend request "
+                                          f"(unsolicited retransmission)", {}))
                     break
                 last = n
                 sent_new = max(sent_new, n + 1)
@@ -529,7 +589,50 @@ def gen_case(rng: random.Random, policies=None) -> dict:
         c["warmup"] = [f"G1 X{i}" for i in range(rng.randint(1, 3))] + rng.choice([[], ["; end"]])
     if rng.random() < EARLY_SHARE:
         c["early"] = gen_early(rng, span)
+    conn = gen_conn(rng)
+    if conn:
+        c["conn"] = conn
+    if rng.random() < SLOW_SHARE:
+        c["slow"] = gen_slow(rng, ncmd, c["faults"])
     return c
+
+
+CONN_SHARE = 0.6
+PORTS = ["/dev/fake", "/dev/ttyUSB0", "/dev/ttyACM1", "COM3", "/dev/serial/by-id/usb-1a86:7523", "/dev/tty.usbmodem1411"]
+BAUDS = [115200, 250000, 57600, 9600, 1000000]
+
+
+def gen_conn(rng: random.Random) -> dict | None:
+    """connection options: everything printcore.connect / the constructor accept for a serial port
+    (None = the plain `printcore().connect("/dev/fake", 115200)`)"""
+    if rng.random() >= CONN_SHARE:
+        return None
+    conn = dict(port=rng.choice(PORTS), baud=rng.choice(BAUDS), dtr=rng.choice([None, False, True, True]),
+                how=rng.choice(["connect", "connect", "connect", "ctor", "split", "reconnect"]))
+    if conn["how"] == "reconnect":
+        conn["first_dtr"] = rng.choice([None, False, True])
+    return conn
+
+
+SLOW_SHARE = 0.1
+SLOW_K = [3, 9, 9, 12, 17, 33]  # read time-outs of silence
+
+
+def gen_slow(rng: random.Random, ncmd: int, faults: list[int]) -> list[list]:
+    """1-2 transmissions whose reply takes several read time-outs: anywhere in the job (the reset
+    included), or next to / on a corrupted transmission; silence before the device reads the line
+    (`exec`) or before the last line of its reply (`ack`)"""
+    out: dict[int, list] = {}
+    for _ in range(rng.choice([1, 1, 2])):
+        r = rng.random()
+        if faults and r < 0.4:
+            i = max(0, rng.choice(faults) + rng.choice([-1, 0, 0, 1]))
+        elif r < 0.7:
+            i = rng.randint(0, min(2, ncmd))  # early in the job: the rest of it runs after the silence
+        else:
+            i = rng.randint(0, ncmd + 2)
+        out[i] = [i, rng.choice(SLOW_K), rng.choice(["exec", "exec", "ack"])]
+    return [out[i] for i in sorted(out)]
 
 
 EARLY_SHARE = 0.35
@@ -557,6 +660,10 @@ def case_repr(c: dict, trace: str | None = None) -> dict:
         d["warmup"] = c["warmup"]
     if c.get("early"):
         d["early"] = list(c["early"])
+    if c.get("conn"):
+        d["conn"] = dict(c["conn"])
+    if c.get("slow"):
+        d["slow"] = [list(x) for x in c["slow"]]
     if trace is not None:
         d["sched"] = trace
     elif c.get("sched") is not None:
@@ -645,6 +752,11 @@ def judge(R: core.Run, c: dict, r: dict, label: str, validated: bool = True):
             R.count("early:capped(Resend during a retransmission delivered after write() returned)")
     else:
         R.count("no-early-schedule")
+    conn = c.get("conn")
+    R.count(f"conn:{conn['how']}" if conn else "conn:default", f"dtr:{conn['dtr'] if conn else None}")
+    if c.get("slow"):
+        R.count("slow-reply", f"slow-reply:waits-realised:{r.get('n_wait', 0)}",
+                *[f"slow-reply:{w}:{'>=9' if k >= 9 else '<9'} time-outs" for _, k, w in c["slow"]])
     if r.get("rep"):
         R.count(f"resend-requests:{min(sum(1 for x in r['rep'] if x.startswith('r')), 5)}")
     record_failures(R, cr, fails)
@@ -665,10 +777,13 @@ def record_failures(R: core.Run, cr: dict, fails):
 
 # ------------------------------------------------------------------ free-running (timed) sub-run: oracle only
 class _TimedFirmware:
-    """firmware twin behind a thread: `latency` before looking at a line, `gap` between `Resend:` and `ok`"""
+    """firmware twin behind a thread: `latency` before looking at a line, `gap` between `Resend:` and `ok`;
+    `slow` = [[transmission index, k, where]]: k read time-outs of silence before that line is read
+    (`exec`) or before the last line of its reply (`ack`)"""
 
-    def __init__(self, ser, fw: sim.FirmwareTwin, latency: float, gap: float):
+    def __init__(self, ser, fw: sim.FirmwareTwin, latency: float, gap: float, slow=None):
         self.ser, self.fw, self.latency, self.gap = ser, fw, latency, gap
+        self.slow = {int(i): (int(k), str(w)) for i, k, w in (slow or [])}
         self.q: list[str] = []
         self.cv = threading.Condition()
         self.stop = False
@@ -692,14 +807,28 @@ class _TimedFirmware:
                 line = self.q.pop(0)
             if self.latency:
                 time.sleep(self.latency)
+            k, where = self.slow.get(self.fw.idx, (0, ""))
+            if where == "exec":
+                self.silence(k)
             prev = ""
-            for rep in self.fw.rx(line):
+            out = self.fw.rx(line)
+            for j, rep in enumerate(out):
                 if rep == "ok" and prev.startswith("Resend") and self.gap:
                     time.sleep(self.gap)
+                if where == "ack" and j == len(out) - 1:
+                    self.silence(k)
                 prev = rep
                 self.ser.push(rep)
             with self.cv:
                 self.busy -= 1
+
+
+    def silence(self, k: int):
+        """until the reader has run into k further read time-outs (bounded: it may have stopped reading)"""
+        try:
+            self.ser.wait_timeouts(k, 2.0 + 3 * k * self.ser.poll)
+        except sim.StepTimeout:
+            pass
 
 
 class _InWriteFirmware:
@@ -764,12 +893,10 @@ def timed_run(case: dict) -> dict:
 
             clear = property(_get, _set)
 
-        p = Probe()
-        p.connect("/dev/fake", 115200)
-        return p
+        return sim.open_connection(pc_mod, case.get("conn"), cls=Probe)
 
     try:
-        with sim.printcore_session(factory=factory) as ses:
+        with sim.printcore_session(factory=factory, read_timeout=SLOW_POLL if case.get("slow") else None) as ses:
             pc, ser = ses.core, ses.ser
             pc.errorcb = lambda e: errs.append(str(e))
 
@@ -785,7 +912,7 @@ def timed_run(case: dict) -> dict:
             if case["latency"] < 0:
                 tf = _InWriteFirmware(ser, fw)
             else:
-                tf = _TimedFirmware(ser, fw, case["latency"], case["gap"])
+                tf = _TimedFirmware(ser, fw, case["latency"], case["gap"], case.get("slow"))
             ser.on_write = tf.on_write
             if not pc.startprint(gcoder.GCode(list(case["job"]))):
                 raise core.Infra("startprint refused (not online?)")
@@ -843,7 +970,9 @@ def timed_run(case: dict) -> dict:
 
 
 # latency < 0: the reply is consumed by the listener before write() returns (`_InWriteFirmware`)
-LATENCIES = [("fast", 0.0, 0.0), ("slow", 0.004, 0.0), ("gap", 0.002, 0.02), ("inwrite", -1.0, 0.0)]
+# `slowcmd`: some command keeps the device silent for several read time-outs, replies 2 ms apart otherwise
+LATENCIES = [("fast", 0.0, 0.0), ("slow", 0.004, 0.0), ("gap", 0.002, 0.02), ("inwrite", -1.0, 0.0),
+             ("slowcmd", 0.002, 0.0)]
 
 
 def timed_oracle(case, r):
@@ -859,6 +988,11 @@ def run_timed(R: core.Run, pool: Pool, n: int):
         name, lat, gap = LATENCIES[k % len(LATENCIES)]
         c.update(policy="timed-" + name, latency=lat, gap=gap)
         c.pop("early", None)  # step-mode dimension; its free-running counterpart is the `inwrite` profile
+        if name == "slowcmd":
+            if not c.get("slow"):
+                c["slow"] = gen_slow(R.rng, len(job_commands(c["job"])), c["faults"])
+        else:
+            c.pop("slow", None)
         if len(c["job"]) > 8:
             c["job"] = c["job"][:8]
         cases.append(c)
@@ -899,6 +1033,13 @@ CORPUS = [
     dict(job=["G1 X0", "G1 X1", "G1 X2"], faults=[], e0=1, policy="burst", seed=1, early=[1]),
     dict(job=["G1 X0", "; c", "G1 X1", "G1 X2"], faults=[2], e0=1, policy="eager", seed=2, early=[0, 0, 3, 1]),
     dict(job=["G1 X0", "G1 X1"], faults=[3], e0=0, policy="lagfw", seed=3, early=[0, 1], warmup=["G1 X5", "G1 X6"]),
+    # connection options: the framing and the resend path do not depend on how the port was opened
+    dict(job=["G28", "G1 X1", "G1 X2 ; c", "M84"], faults=[2], e0=1, policy="burst", seed=4,
+         conn=dict(port="/dev/ttyUSB0", baud=250000, dtr=True, how="connect")),
+    dict(job=["G1 X0", "G1 X1"], faults=[], e0=0, policy="eager", seed=4,
+         conn=dict(port="COM3", baud=57600, dtr=False, how="reconnect", first_dtr=True)),
+    # a command that takes long (silence for many read time-outs), then a damaged last line
+    dict(job=["G28", "G1 X1", "G1 X2", "M84"], faults=[4], e0=1, policy="burst", seed=4, slow=[[1, 12, "exec"]]),
 ]
 
 
@@ -908,7 +1049,10 @@ def run(R: core.Run):
         "duplicates, '*' and '/' inside commands) x fault sets of 0-4 transmission indices (runs of consecutive indices, "
         "indices around the end of the job, the reset itself in 8%) x e0 in {0,1,2,5} x 8 schedule policies "
         "x (in 35%) a cyclic pattern of transmissions whose first 1-3 reply lines are consumed by the listener before "
-        "the port's write() returns (every line / some lines / one line); "
+        "the port's write() returns (every line / some lines / one line) "
+        "x connection options (in 60%: 6 port names, 5 baud rates, dtr None/False/True, opened by connect / the "
+        "constructor / two connect calls / a reconnect) x (in 10%, and in the free-running `slowcmd` profile) 1-2 "
+        "transmissions whose reply is preceded by 3-33 read time-outs of silence; "
         "non-trivial = at least 2 commands and (a fault or a skipped line); distinct by hash of (job, faults, e0, schedule)"
     )
     R.assumptions = [
@@ -918,6 +1062,9 @@ def run(R: core.Run):
         "schedules are realised at the granularity of the two atomic sender steps (one _sendnext pass, one _listen line); "
         "races inside a step (non-atomic resendfrom += 1) are exercised only by the free-running sub-run, judged by the oracle",
         "printcore.time.sleep is replaced for the print thread by a harness gate (step mode); serial.Serial is a fake",
+        "the fake port honours a read time-out (readline() returns b'' when nothing arrived): 50 ms, 10 ms in the cases "
+        "with a slow reply, standing for the 0.25 s Device asks pyserial for; waiting is a stutter step of the model "
+        "(schedule actions W/w are not replayed on it); connection options are invisible to the model",
         "a reply consumed before write() returns is, for the model's atomic _sendnext, the schedule S,F,L..L (the write is "
         "the section's last access to the state shared with the listener since /repo 940214b)",
     ]
